@@ -971,8 +971,20 @@ fn collect_positions<C: FromIterator<u8> + FromIterator<u16> + FromIterator<u32>
 /// bit structures. `bits` is the plain bit sequence for bool-based paths;
 /// `pos` the list of positions for position-based paths.
 /// a bit structure over `base` zeros followed by `tail` (positions beyond 2^32)
-pub fn make_big(kind: &str, base: usize, tail: Vec<bool>) -> Option<Box<dyn Obj>> {
-    let mut bvm = BitVectorMut::with_zeros(base);
+pub fn make_big(kind: &str, base: usize, fill: bool, tail: Vec<bool>) -> Option<Box<dyn Obj>> {
+    let mut bvm = if fill {
+        // a leading run of ones, 64 at a time
+        let mut v = BitVectorMut::with_capacity(base + tail.len());
+        for _ in 0..base / 64 {
+            v.append_bits(u64::MAX, 64);
+        }
+        for _ in 0..base % 64 {
+            v.push(true);
+        }
+        v
+    } else {
+        BitVectorMut::with_zeros(base)
+    };
     bvm.extend(tail);
     if kind == "BVM" {
         return Some(Box::new(bvm));
